@@ -18,7 +18,7 @@ Same == UNCHANGED vars
 Event(ev) ==
     CASE ev.ev = "Put" -> Put(ev.e)
       [] ev.ev = "EmitDone" -> EmitDone(ev.e)
-      [] ev.ev = "CbEmit" -> CbEmit /\ hand = ev.e
+      [] ev.ev = "CbEmit" -> CbEmit /\ hand = ev.e /\ ev.md = <<ev.e>>        \* C10: its own metadata travels with it
       [] ev.ev = "ConsumerDone" -> ConsumerDone
       [] ev.ev = "CbRelease" -> CbRelease /\ hand = ev.e /\ rc'[ev.e] = ev.count
                                 /\ (ev.fired <=> (Len(fired') > Len(fired)))
